@@ -302,6 +302,18 @@ theorem parked_request_data_crosses_threads :
     soloResponse ((rinit reqs).loc 0) = [.scr (some 5)] := by
   decide
 
+/-- a protocol instance shared by the requests that switch to it and bound by its first user: when
+    binding an already bound instance raises, the loser of the test-then-bind race fails -/
+theorem rebinding_a_shared_protocol_fails_the_loser :
+    let F : RFacts := { order := fun _ => .afterInit, errRead := .underLock, rebindRaises := true }
+    let k : Key := ⟨.bind, 0, false⟩
+    let reqs := [mkReq 1 false [.probe k, .publish k, .probe k], mkReq 2 false [.probe k, .publish k, .probe k]]
+    ((rrun F (rinit reqs) [0, 1, 1, 0, 0, 1]).loc 0).obs = [.val k .full, .exc, .val k .full] ∧
+    soloResponse ((rinit reqs).loc 0) = [.val k .full, .val k .full] ∧
+    -- … and without the exception both are served as if alone
+    ((rrun { F with rebindRaises := false } (rinit reqs) [0, 1, 1, 0, 0, 1]).loc 0).obs = [.val k .full, .val k .full] := by
+  decide
+
 /-- a context cell that lives on a class (e.g. `resp_headers` as a class-level dict) is one object for
     all requests: a request that never set the cell reads another request's value -/
 theorem shared_context_cell_crosses_threads :
